@@ -2830,6 +2830,11 @@ class MOFCompiler:
         # not None.
         self.parser.embedded_objects = None
 
+        # Path names of the MOF files that are currently being compiled
+        # (a file and the files including it), for detecting files that
+        # include themselves.
+        self._files_in_progress = []
+
     def conn_close(self):
         """
         Close the underlying connection, if it is a WBEMConnection.
@@ -3052,10 +3057,20 @@ class MOFCompiler:
                 raise OSError(
                     _format("No such file: {0!A}", filename))
             filename = rfilename
+        abs_filename = os.path.abspath(filename)
+        if abs_filename in self._files_in_progress:
+            raise MOFParseError(
+                msg=_format("MOF file {0!A} includes itself, directly or "
+                            "through the files it includes", filename))
+
         with open(filename, encoding='utf-8') as f:
             mof = f.read()
 
-        return self.compile_string(mof, ns, filename=filename)
+        self._files_in_progress.append(abs_filename)
+        try:
+            return self.compile_string(mof, ns, filename=filename)
+        finally:
+            self._files_in_progress.pop()
 
     def find_mof(self, classname):
         """
